@@ -139,7 +139,7 @@ def observe_graph(g):
     nodes = []
     for n in g.nodes:
         nodes.append({
-            'id': n.id, 'name': n.name, 'full_name': n.full_name, 'type': n.type,
+            'id': n.id, 'name': n.name, 'type': n.type,
             'asset': str(n.asset.name) if n.asset is not None else None,
             'ttc': n.ttc, 'defense_status': _f(n.defense_status),
             'existence_status': n.existence_status, 'is_viable': n.is_viable,
@@ -889,7 +889,7 @@ class GraphWorld(BaseWorld):
         for real, mk in zip(new, mref.attacker_order):
             ma = mref.attackers[mk]
             k = self.new_ah()
-            ra = RAttacker(k, ma.name, real.id)
+            ra = RAttacker(k, real.name, real.id)    # how attached attackers are named is not promised
             if not isinstance(real.id, int) or real.id in used_ids:
                 self.fail('C11.attach', f'{where}: attacker got id {real.id!r}, in use {sorted(used_ids)}')
             used_ids.add(real.id)
